@@ -139,3 +139,116 @@ def run_resolved_ordinal(prog, tier, repo):
                           f'fields in another order than the declaration binds the wrong fields')
     res.floor('resolved ordinals', len(computed), 3)
     return [res]
+
+
+# ---------------------------------------------------------------------------------------------------------------------
+# GUARDED-OPERAND (C01): `a && b` / `a || b` evaluate b only when a does not already decide the result. In the lowering
+# this is visible as a shape: the statements produced by lowering the second operand are placed inside a branch of an
+# `IfElse` statement whose condition is the value of the first operand. Wherever such a guarded pair exists, every *other*
+# place the second operand's statements go to (an unconditional concatenation, the result's statement list) must be behind
+# a compile-time decision about the FIRST operand being a literal - any other route executes the operand's side effects
+# unconditionally.
+
+def run_guarded_operand(prog, tier, repo):
+    from ..dataflow import root_local
+    from ..tables import enum_switches
+    from ..core import places_read
+    res = RuleResult('GUARDED-OPERAND', 'C01: where the lowering guards the statements of one operand by the value of another '
+                     '(short-circuit `&&` / `||`), those statements reach the output only inside the guarded branch or behind a '
+                     'compile-time test of the guarding operand being a literal')
+    hir_expr = [a for a in prog.adts.values() if a.name == 'samlang_ast::hir::Expression']
+    if len(hir_expr) != 1:
+        res.cannot_decide('samlang_ast::hir::Expression')
+        return [res]
+    hexpr = hir_expr[0]
+    lit_variants = {i for i, v in enumerate(hexpr.variants) if 'Literal' in v.name}
+    n = 0
+    for b in sorted(prog.bodies.values(), key=lambda x: x.name):
+        if not b.name.startswith('samlang_compiler::hir_lowering::') or '::tests' in b.name:
+            continue
+        # lowering calls: result type is a struct with a statements vector and an expression
+        lows = {}
+        for bi, bl in enumerate(b.blocks):
+            t = bl.term
+            if bl.cleanup or t[0] != 'call' or t[4] is None or t[4].proj:
+                continue
+            rt = b.locals[t[4].local]
+            if rt.k == 'adt' and rt.name.endswith('::LoweringResult'):
+                lows[t[4].local] = bi
+
+        def origin(op):
+            """(lowering-result local, field name) an operand is moved out of, or None"""
+            if op[0] not in ('c', 'm'):
+                return None
+            r, path = operand_root(b, op)
+            if r in lows:
+                fs = [e for e in path if e[0] == 'f']
+                if fs:
+                    return r, fs[0][4]
+            return None
+        pairs = {}    # guarded lowering local -> (guard lowering local, line)
+        agg_uses = set()
+        for bi, bl in enumerate(b.blocks):
+            if bl.cleanup:
+                continue
+            for st in bl.stmts:
+                if st[0] == 'a' and st[2][0] == 'agg' and st[2][1][0] == 'adt' and st[2][1][3] == 'IfElse' \
+                        and st[2][1][1].endswith('hir::Statement'):
+                    ops = st[2][2]
+                    cond = origin(ops[0]) if ops else None
+                    for o in ops[1:3]:
+                        og = origin(o)
+                        if og and og[1] == 'statements' and cond and cond[1] == 'expression' and cond[0] != og[0]:
+                            pairs[og[0]] = (cond[0], st[3])
+                            agg_uses.add((bi, og[0]))
+        if not pairs:
+            continue
+        cfg = cfg_of(b)
+        switches = enum_switches(prog, b, hexpr.id)
+        for guarded, (guard, line) in sorted(pairs.items()):
+            n += 1
+            # compile-time literal tests of the guard's expression
+            lit_edges = []
+            for sw in switches:
+                r, path = root_local(b, sw.place.local)
+                fs = [e for e in tuple(path) + tuple(sw.place.proj) if e[0] == 'f']
+                if r == guard and fs and fs[0][4] == 'expression':
+                    for v in lit_variants:
+                        tg = sw.arms.get(v)
+                        if tg is not None:
+                            lit_edges.append((sw.bb, tg))
+            bad = None
+            for bi, bl in enumerate(b.blocks):
+                if bl.cleanup:
+                    continue
+                uses = []
+                for st in bl.stmts:
+                    if st[0] == 'a':
+                        if st[2][0] == 'agg':
+                            for o in st[2][2]:
+                                og = origin(o)
+                                if og == (guarded, 'statements'):
+                                    is_ifelse = st[2][1][0] == 'adt' and st[2][1][3] == 'IfElse'
+                                    if not is_ifelse:
+                                        uses.append(st[3])
+                t = bl.term
+                if t[0] == 'call':
+                    for o in t[3]:
+                        if origin(o) == (guarded, 'statements') and o[0] == 'm':
+                            uses.append(t[7])
+                for ln in uses:
+                    arm_starts = [tg for _sb, tg in lit_edges]
+                    if not (arm_starts and cfg.nodes_dominate(arm_starts, bi)):
+                        bad = (bi, ln)
+            k = sum(1 for i in res.instances if i.key.startswith(f'guarded:{b.name}#')) + 1
+            key = f'guarded:{b.name}#{k}'
+            if bad:
+                res.violation(key, b.loc(bad[1]), f'{b.name} guards the statements of one lowered operand by the value of another '
+                              f'(IfElse built at line {line}) but also moves those statements into the output on a path that is not '
+                              f'behind a test of the guarding operand being a literal: the operand\'s side effects (calls, traps) '
+                              f'run even when the first operand already decides the result')
+            else:
+                res.ok(key, b.loc(line), 'the guarded operand\'s statements are only used inside the branch or behind a literal '
+                       'test of the guard')
+    res.floor('guarded operand pairs (short-circuit lowerings)', n, 2)
+    return [res]
